@@ -10,5 +10,6 @@ cmake --build $B -j14 2>&1 | tail -1
 ctest --test-dir $B -j14 2>&1 | grep "tests passed\|tests failed"
 sh out/run.sh > $D/v_changed.out 2>&1; echo "changed rc=$?"; tail -3 $D/v_changed.out
 git -C wt checkout -- .
+cmake --build $B -j14 --target chai 2>&1 | tail -1
 sh out/run.sh > $D/v_unchanged.out 2>&1; echo "unchanged rc=$?"; tail -3 $D/v_unchanged.out
 } > $D/verify.log 2>&1
